@@ -659,14 +659,11 @@ Lemma merge_counter_spec key existing c ds :
 Proof.
   intros Hk Hex Hc HF. unfold udc_full.
   destruct (Z.of_nat (length key) <? 3) eqn:E; [apply Z.ltb_lt in E; lia|].
-  assert (Hstart :
-    match existing with
-    | Some (b :: e) => let '(c0, n) := uvarint (b :: e) in if n <=? 0 then None else Some c0
-    | _ => Some 0
-    end = Some c).
-  { destruct existing as [[|b e]|]; try (subst; reflexivity).
-    destruct Hex as [n [-> Hn]]. destruct (n <=? 0) eqn:E2; [apply Z.leb_le in E2; lia|reflexivity]. }
-  rewrite Hstart. rewrite udc_fold_spec by assumption. reflexivity.
+  destruct existing as [[|b e]|].
+  - subst c. rewrite udc_fold_spec by assumption. reflexivity.
+  - destruct Hex as [n [-> Hn]]. destruct (n <=? 0) eqn:E2; [apply Z.leb_le in E2; lia|].
+    rewrite udc_fold_spec by assumption. reflexivity.
+  - subst c. rewrite udc_fold_spec by assumption. reflexivity.
 Qed.
 
 Example merge_counter_spec_ex :
